@@ -84,6 +84,19 @@ def main():
 
             recs.append({"id": f"{item['gid']}:e{ei}:simp", "k": "simp", "ev": ev, "out": guarded(do_simp)})
             recs.append({"id": f"{item['gid']}:e{ei}:fact", "k": "fact", "ev": ev, "out": guarded(do_fact)})
+        from y0.algorithm.counterfactual_transport.ancestor_utils import get_ancestral_components
+        for ci, (ws, xs) in enumerate(item.get("comps", [])):
+            graph = build_graph(g, ci % 2)
+            wv = {de_var(dict(v, s=0)) for v in ws}
+            xv = {de_var(dict(v, s=0)) for v in xs}
+
+            def do_comp():
+                r = get_ancestral_components(conditioned_variables=xv, root_variables=wv, graph=graph)
+                cs = sorted([[ser_var(v) for v in sorted(c, key=str)] for c in r], key=lambda c: json.dumps(c, sort_keys=True))
+                return {"k": "comps", "cs": cs, "str": str(sorted(sorted(map(str, c)) for c in r))[:300]}
+
+            recs.append({"id": f"{item['gid']}:c{ci}:comp", "k": "comp", "w": [dict(v, s=0) for v in ws],
+                         "x": [dict(v, s=0) for v in xs], "out": guarded(do_comp)})
         groups.append({"n": g["n"], "d": g["d"], "b": g["b"], "recs": recs, "gid": item["gid"]})
     json.dump(groups, open(sys.argv[2], "w"))
 
